@@ -34,10 +34,15 @@ failures, cases = [], 0
 
 def fail(what, **kw):
     if len(failures) < 12:
-        failures.append(dict(section="dsl", what=what, **{k: repr(v)[:300] for k, v in kw.items()}))
+        failures.append(dict(section=(sys.argv[2] if len(sys.argv) > 2 else "all"), what=what, **{k: repr(v)[:300] for k, v in kw.items()}))
 
 
 def load_corpus():
+    global CORPUS
+    if only and len(only) == 1 and only[0].startswith("gen:"):       # gen:<seed>:<count>: the generated family instead of the hand-written corpus
+        from contracts import dsl_gen
+        _g, seed, count = only[0].split(":")
+        CORPUS = dsl_gen.module_path(int(seed), int(count))
     spec = importlib.util.spec_from_file_location("dsl_corpus_native", CORPUS)
     mod = importlib.util.module_from_spec(spec)
     spec.loader.exec_module(mod)
@@ -204,7 +209,7 @@ def run_program(mod, name, sizes, ninf, maxtot, seed, schedule, have_offdiag, fl
     nb = len(sizes)
     # inputs vanish at zeroth order (well-founded products) except those used as start values ("<name>_0"), which must not be product factors
     starts = {s.start[:-2] for s in alg.series if isinstance(s.start, str)}
-    in_names = sorted(set(in_names) | starts)
+    in_names = sorted(set(in_names) | starts | {"A"})      # series_computation needs at least one input series to learn the shape
     values = {nm: make_input(sizes, ninf, seed + 17 * q, nonzero_start=nm in starts) for q, nm in enumerate(in_names)}
     inputs = {nm: (lambda v: (lambda i, j, n: v(i, j, n)))(values[nm]) for nm in in_names}
     scope = {"f": f, "g": g, "diag": diag, "offdiag": offdiag if have_offdiag else None, "two_block_optimized": flags[0], "commuting_blocks": list(flags[1][:nb])}
@@ -253,7 +258,7 @@ def run_program(mod, name, sizes, ninf, maxtot, seed, schedule, have_offdiag, fl
 
 def main():
     mod, names = load_corpus()
-    if only:
+    if only and not only[0].startswith("gen:"):
         names = [n for n in names if n in only]
     schedules = ["ascending", "descending-offdiagonal-first", "shuffled-with-repeats", "intermediates-first"]
     layouts = [((2, 2), 1, 3), ((2, 3), 1, 3), ((1, 2, 2), 1, 2), ((2, 3), 2, 2)]
